@@ -6,7 +6,7 @@ import numpy as np
 from scipy.optimize import linprog
 
 from rv import sets as S
-from rv.common import user_array
+from rv.common import user_array, digest as _digest
 
 ALL_KINDS = ['box', 'norm1', 'norminf', 'norm2', 'sumsqr', 'pnorm', 'quad', 'absbudget',
              'polytope', 'kl', 'entropy']
@@ -210,6 +210,13 @@ def _hook(variant, point, B=None):
 
 
 def build(spec, rso_mod=None, variant=None):
+    try:
+        return _build(spec, rso_mod, variant)
+    finally:
+        S.ARR[0] = None
+
+
+def _build(spec, rso_mod=None, variant=None):
     """Translate the spec into an ro.Model.  `variant` (dict) selects rewrites
     used by C15/C09; default spelling is chosen from spec['spell']."""
     import rsome as rso
@@ -222,10 +229,15 @@ def build(spec, rso_mod=None, variant=None):
     nx, nz = spec['nx'], spec['nz']
     B.arrays = []          # every ndarray handed to RSOME (for purity checks)
 
+    B.digests = []
+
     def arr(a):
         a = user_array(a, variant.get('arr'))
         B.arrays.append(a)
+        B.digests.append(_digest(a))
         return a
+
+    S.ARR[0] = arr
 
     order = variant.get('decl_order', 'xzy')
     xs = zs = ys = None
